@@ -72,7 +72,8 @@ CHECKS.update({
             "runtime save/restore and equality monitors over all zones, manual-offset grid and all type bytes, under ASan+UBSan",
             "Every zone of both registries (plain and managed), a grid of manual zones with int16 extremes, error/default zones "
             "and all 256 serialised type bytes go through save -> restore (full and partial registries, a second manager); operator== is compared "
-            "with the stated relation on all pairs of a pool; manual zones are asked at 16 instants incl. the ends of the int32 range; saved zones are "
+            "with the stated relation on all pairs of a pool; manual zones are asked at 16 instants incl. the ends of the int32 range and are also "
+            "reached through the setters in both orders from five starting zones; saved zones are "
             "restored through managers with fewer processor slots than zones in use and asked in random orders.",
             BASE_NOTE, "3/C16"),
 })
